@@ -137,7 +137,7 @@ LPoll ==
          rev == [s \in fds |-> Revents(s)]
          cnt == Cardinality({s \in fds : rev[s] # {}})
      IN
-     /\ PPoll(fds, pollTmo, pollT0, rev)
+     /\ PPoll(fds, pollTmo, pollT0, rev, pollT0, TRUE)
      /\ IF cnt # 0 \/ ~pollOver
         THEN /\ ready' = << Flag(rev, "in", IF FixF7 THEN {"OUT", "HUP", "ERR"} ELSE {"OUT", "HUP"}),
                             Flag(rev, "out", {"IN", "HUP"}), Flag(rev, "err", {"IN", "HUP"}) >>
